@@ -14,38 +14,46 @@ Open Scope N_scope.
 Ltac Zify.zify_post_hook ::= Z.div_mod_to_equations.
 
 (* ---------- scripts that deliver chunks ---------- *)
-Definition quiet : step := {| s_ctx := false; s_timer := false; s_pick := false; s_rd := RTimeout |}.
-Definition deliver (b : list N) : step := {| s_ctx := false; s_timer := false; s_pick := false; s_rd := RData b |}.
-(* each chunk is preceded by [w] empty reads that end with the read deadline *)
-Fixpoint script_of (chunks : list (nat * list N)) : list step :=
+Definition quiet : step :=
+  {| s_ctx := false; s_deadline := false; s_timer := false; s_pick := false; s_rd := RTimeout [] |}.
+(* a read that returns the chunk [b]: with a nil error, or ([late]) together with
+   os.ErrDeadlineExceeded -- both are allowed by io.Reader *)
+Definition rd_of (late : bool) (b : list N) : rd := if late then RTimeout b else RData b.
+Definition cls_of (late : bool) : N := if late then 1 else 0.
+Definition deliver (late : bool) (b : list N) : step :=
+  {| s_ctx := false; s_deadline := false; s_timer := false; s_pick := false; s_rd := rd_of late b |}.
+(* a segmentation: each chunk (w, late, b) is preceded by [w] empty reads that end with the read
+   deadline, and is itself returned with a nil error or with the deadline error *)
+Definition chunk := (nat * bool * list N)%type.
+Fixpoint script_of (chunks : list chunk) : list step :=
   match chunks with
   | [] => []
-  | (w, b) :: r => repeat quiet w ++ deliver b :: script_of r
+  | (w, late, b) :: r => repeat quiet w ++ deliver late b :: script_of r
   end.
-Definition payload (chunks : list (nat * list N)) : list N := concat (map snd chunks).
+Definition payload (chunks : list chunk) : list N := concat (map snd chunks).
 
 (* what one transport read leaves in the trace *)
 Definition read_ev (cfg : config) (chunk : list N) (cls : N) : list ev :=
   TRead chunk cls :: hk cfg (HAfterRead chunk (length chunk) cls).
 Fixpoint quiet_trace (cfg : config) (w : nat) : list ev :=
   match w with O => [] | S n => read_ev cfg [] 1 ++ quiet_trace cfg n end.
-Fixpoint reads_trace (cfg : config) (chunks : list (nat * list N)) : list ev :=
+Fixpoint reads_trace (cfg : config) (chunks : list chunk) : list ev :=
   match chunks with
   | [] => []
-  | (w, b) :: r => quiet_trace cfg w ++ read_ev cfg b 0 ++ reads_trace cfg r
+  | (w, late, b) :: r => quiet_trace cfg w ++ read_ev cfg b (cls_of late) ++ reads_trace cfg r
   end.
 
-Lemma payload_cons w b r : payload ((w, b) :: r) = b ++ payload r.
+Lemma payload_cons w d b r : payload ((w, d, b) :: r) = b ++ payload r.
 Proof. reflexivity. Qed.
 Lemma payload_app a b : payload (a ++ b) = payload a ++ payload b.
 Proof. unfold payload. rewrite map_app, concat_app. reflexivity. Qed.
 Lemma script_of_app a b : script_of (a ++ b) = script_of a ++ script_of b.
 Proof.
-  induction a as [|[w c] a IH]; [reflexivity|]. cbn [app script_of]. rewrite IH, <- app_assoc. reflexivity.
+  induction a as [|[[w d] c] a IH]; [reflexivity|]. cbn [app script_of]. rewrite IH, <- app_assoc. reflexivity.
 Qed.
 Lemma reads_trace_app cfg a b : reads_trace cfg (a ++ b) = reads_trace cfg a ++ reads_trace cfg b.
 Proof.
-  induction a as [|[w c] a IH]; [reflexivity|]. cbn [app reads_trace]. rewrite IH, <- !app_assoc. reflexivity.
+  induction a as [|[[w d] c] a IH]; [reflexivity|]. cbn [app reads_trace]. rewrite IH, <- !app_assoc. reflexivity.
 Qed.
 
 (* ---------- with_trace ---------- *)
@@ -77,19 +85,23 @@ Proof. reflexivity. Qed.
 Lemma max_le_buf : (max_len k <= buf_size k)%nat.
 Proof. unfold buf_size. lia. Qed.
 
-Lemma delivered_data acc b : (length (acc ++ b) <= max_len k)%nat ->
-  delivered k acc (RData b) = (b, 0).
+Lemma delivered_data acc d b : (length (acc ++ b) <= max_len k)%nat ->
+  delivered k acc (rd_of d b) = (b, cls_of d).
 Proof.
-  intros H. unfold delivered. rewrite firstn_all2; [reflexivity|].
-  rewrite app_length in H. pose proof max_le_buf. lia.
+  intros H. unfold delivered, rd_of, cls_of.
+  assert (X : (length b <= buf_size k - length acc)%nat).
+  { rewrite app_length in H. pose proof max_le_buf. lia. }
+  destruct d; rewrite (firstn_all2 _ X); reflexivity.
 Qed.
+Lemma cls_of_3 d : (cls_of d =? 3) = false. Proof. destruct d; reflexivity. Qed.
+Lemma cls_of_2 d : (cls_of d =? 2) = false. Proof. destruct d; reflexivity. Qed.
 
 (* one empty timed-out read *)
 Lemma loop_quiet rest acc : alive acc ->
   loop cfg sc e (quiet :: rest) acc = with_trace (read_ev cfg [] 1) (loop cfg sc e rest acc).
 Proof.
   intros (He & Hm & Hr). cbn [loop quiet s_ctx s_timer s_pick s_rd andb orb negb delivered fst snd].
-  fold k. unfold read_ev. f_equal.
+  fold k. rewrite firstn_nil. unfold read_ev. f_equal.
   change (1 =? 3) with false. cbn iota.
   rewrite app_nil_r.
   replace (max_len k <? length acc)%nat with false by lia.
@@ -108,61 +120,61 @@ Proof.
 Qed.
 
 (* a data read after which the loop goes on *)
-Lemma loop_data_continue b rest acc : alive (acc ++ b) ->
-  loop cfg sc e (deliver b :: rest) acc = with_trace (read_ev cfg b 0) (loop cfg sc e rest (acc ++ b)).
+Lemma loop_data_continue d b rest acc : alive (acc ++ b) ->
+  loop cfg sc e (deliver d b :: rest) acc = with_trace (read_ev cfg b (cls_of d)) (loop cfg sc e rest (acc ++ b)).
 Proof.
   intros (He & Hm & Hr). cbn [loop deliver s_ctx s_timer s_pick s_rd andb orb negb]. fold k.
   rewrite delivered_data by exact Hm. cbn [fst snd]. unfold read_ev. f_equal.
-  change (0 =? 3) with false. cbn iota.
+  rewrite cls_of_3.
   replace (max_len k <? length (acc ++ b))%nat with false by lia.
   rewrite Hr.
   replace (e <=? length (acc ++ b))%nat with false by lia.
-  change (0 =? 2) with false. reflexivity.
+  rewrite cls_of_2. reflexivity.
 Qed.
 
 (* the data read that reaches the threshold *)
-Lemma loop_data_stop b rest acc :
+Lemma loop_data_stop d b rest acc :
   (e <= length (acc ++ b))%nat -> (length (acc ++ b) <= max_len k)%nat ->
   recognise k (window k (acc ++ b)) = RNone ->
-  loop cfg sc e (deliver b :: rest) acc = with_trace (read_ev cfg b 0) (flush_then cfg sc (finish (acc ++ b))).
+  loop cfg sc e (deliver d b :: rest) acc = with_trace (read_ev cfg b (cls_of d)) (flush_then cfg sc (finish (acc ++ b))).
 Proof.
   intros He Hm Hr. cbn [loop deliver s_ctx s_timer s_pick s_rd andb orb negb]. fold k.
   rewrite delivered_data by exact Hm. cbn [fst snd]. unfold read_ev. f_equal.
-  change (0 =? 3) with false. cbn iota.
+  rewrite cls_of_3.
   replace (max_len k <? length (acc ++ b))%nat with false by lia.
   rewrite Hr.
   replace (e <=? length (acc ++ b))%nat with true by lia. reflexivity.
 Qed.
 
 (* the data read that completes an exception frame *)
-Lemma loop_data_exc b rest acc x :
+Lemma loop_data_exc d b rest acc x :
   (length (acc ++ b) <= max_len k)%nat ->
   recognise k (window k (acc ++ b)) = RExc x ->
-  loop cfg sc e (deliver b :: rest) acc = with_trace (read_ev cfg b 0) (flush_then cfg sc (DFail (CExc x))).
+  loop cfg sc e (deliver d b :: rest) acc = with_trace (read_ev cfg b (cls_of d)) (flush_then cfg sc (DFail (CExc x))).
 Proof.
   intros Hm Hr. cbn [loop deliver s_ctx s_timer s_pick s_rd andb orb negb]. fold k.
   rewrite delivered_data by exact Hm. cbn [fst snd]. unfold read_ev. f_equal.
-  change (0 =? 3) with false. cbn iota.
+  rewrite cls_of_3.
   replace (max_len k <? length (acc ++ b))%nat with false by lia.
   rewrite Hr. reflexivity.
 Qed.
 
 (* every boundary strictly inside [chunks] (and the start) is a state in which the loop goes on *)
-Definition alive_inside (acc : list N) (chunks : list (nat * list N)) : Prop :=
+Definition alive_inside (acc : list N) (chunks : list chunk) : Prop :=
   forall pre post, chunks = pre ++ post -> post <> [] -> alive (acc ++ payload pre).
-Definition alive_through (acc : list N) (chunks : list (nat * list N)) : Prop :=
+Definition alive_through (acc : list N) (chunks : list chunk) : Prop :=
   forall pre post, chunks = pre ++ post -> alive (acc ++ payload pre).
 
-Lemma alive_inside_tail acc w b r :
-  alive_inside acc ((w, b) :: r) -> alive_inside (acc ++ b) r.
+Lemma alive_inside_tail acc w d b r :
+  alive_inside acc ((w, d, b) :: r) -> alive_inside (acc ++ b) r.
 Proof.
-  intros H pre post Hs Hp. specialize (H ((w, b) :: pre) post).
+  intros H pre post Hs Hp. specialize (H ((w, d, b) :: pre) post).
   rewrite payload_cons, app_assoc in H. apply H; [rewrite Hs; reflexivity|exact Hp].
 Qed.
-Lemma alive_through_tail acc w b r :
-  alive_through acc ((w, b) :: r) -> alive_through (acc ++ b) r.
+Lemma alive_through_tail acc w d b r :
+  alive_through acc ((w, d, b) :: r) -> alive_through (acc ++ b) r.
 Proof.
-  intros H pre post Hs. specialize (H ((w, b) :: pre) post).
+  intros H pre post Hs. specialize (H ((w, d, b) :: pre) post).
   rewrite payload_cons, app_assoc in H. apply H. rewrite Hs. reflexivity.
 Qed.
 Lemma alive_inside_head acc c r : alive_inside acc (c :: r) -> alive acc.
@@ -182,11 +194,11 @@ Lemma loop_continue : forall chunks rest acc,
   loop cfg sc e (script_of chunks ++ rest) acc
   = with_trace (reads_trace cfg chunks) (loop cfg sc e rest (acc ++ payload chunks)).
 Proof.
-  induction chunks as [|[w b] chunks IH]; intros rest acc H.
+  induction chunks as [|[[w d] b] chunks IH]; intros rest acc H.
   - cbn [script_of app reads_trace payload map concat]. rewrite app_nil_r, with_trace_nil. reflexivity.
   - cbn [script_of reads_trace]. rewrite <- app_assoc. cbn [app].
     rewrite loop_quiets by (apply (alive_through_head _ _ H)).
-    pose proof (alive_through_tail _ _ _ _ H) as Ht.
+    pose proof (alive_through_tail _ _ _ _ _ H) as Ht.
     rewrite loop_data_continue by (apply (alive_through_head _ _ Ht)).
     rewrite IH by exact Ht.
     rewrite !with_trace_app, payload_cons, <- !app_assoc. reflexivity.
@@ -201,7 +213,7 @@ Lemma loop_stop : forall chunks rest acc,
   loop cfg sc e (script_of chunks ++ rest) acc
   = with_trace (reads_trace cfg chunks) (flush_then cfg sc (finish (acc ++ payload chunks))).
 Proof.
-  induction chunks as [|[w b] chunks IH]; intros rest acc Hne H He Hm Hr; [congruence|].
+  induction chunks as [|[[w d] b] chunks IH]; intros rest acc Hne H He Hm Hr; [congruence|].
   cbn [script_of reads_trace]. rewrite <- app_assoc. cbn [app].
   rewrite loop_quiets by (apply (alive_inside_head _ _ _ H)).
   destruct chunks as [|c chunks].
@@ -209,7 +221,7 @@ Proof.
     rewrite app_nil_r in *.
     rewrite loop_data_stop by assumption.
     rewrite with_trace_app, ?app_nil_r. reflexivity.
-  - pose proof (alive_inside_tail _ _ _ _ H) as Ht.
+  - pose proof (alive_inside_tail _ _ _ _ _ H) as Ht.
     rewrite loop_data_continue by (apply (alive_inside_head _ _ _ Ht)).
     rewrite payload_cons, app_assoc in He, Hm, Hr.
     rewrite IH; [|discriminate|exact Ht|exact He|exact Hm|exact Hr].
@@ -225,15 +237,15 @@ Lemma loop_exception : forall chunks rest acc x,
   loop cfg sc e (script_of chunks ++ rest) acc
   = with_trace (reads_trace cfg chunks) (flush_then cfg sc (DFail (CExc x))).
 Proof.
-  induction chunks as [|[w b] chunks IH]; intros rest acc x Hne H Hm Hr; [congruence|].
+  induction chunks as [|[[w d] b] chunks IH]; intros rest acc x Hne H Hm Hr; [congruence|].
   cbn [script_of reads_trace]. rewrite <- app_assoc. cbn [app].
   rewrite loop_quiets by (apply (alive_inside_head _ _ _ H)).
   destruct chunks as [|c chunks].
   - cbn [script_of app reads_trace]. rewrite payload_cons in *. cbn [payload map concat] in *.
     rewrite app_nil_r in *.
-    rewrite (loop_data_exc _ _ _ x) by assumption.
+    rewrite (loop_data_exc _ _ _ _ x) by assumption.
     rewrite with_trace_app, ?app_nil_r. reflexivity.
-  - pose proof (alive_inside_tail _ _ _ _ H) as Ht.
+  - pose proof (alive_inside_tail _ _ _ _ _ H) as Ht.
     rewrite loop_data_continue by (apply (alive_inside_head _ _ _ Ht)).
     rewrite payload_cons, app_assoc in Hm, Hr.
     rewrite (IH _ _ x); [|discriminate|exact Ht|exact Hm|exact Hr].
